@@ -88,31 +88,43 @@ def setNodeResourceUsage (n : NodeInfo) (nodeResource : Option NodeRes) (ws : Li
 def setNodeResourceInfo (capacity usage : NodeRes) : Except String NodeInfo :=
   ({ capacity := capacity, usage := usage } : NodeInfo).validate
 
-/-- CalculateRealloc: (new workload resource, delta resource) -/
+/-- CalculateRealloc: does the re-allocated workload bind CPUs (`keep-cpu-bind` overrides) -/
+def reallocBind (origin : WorkloadRes) (req : Req) : Bool :=
+  if req.keepCPUBind then decide (origin.cpuMap.length > 0) else req.cpuBind
+
+/-- CalculateRealloc: the new request = delta request + origin resource -/
+def reallocReq (origin : WorkloadRes) (req : Req) : Req :=
+  { cpuBind := reallocBind origin req, cpuRequest := req.cpuRequest + origin.cpuRequest,
+    cpuLimit := req.cpuLimit + origin.cpuLimit, memRequest := req.memRequest + origin.memoryRequest,
+    memLimit := req.memLimit + origin.memoryLimit }
+
+/-- CalculateRealloc: the new workload resource -/
+def reallocResource (newReq : Req) (cpuMap : IMap) (numaNode : String) (numaMemory : IMap) : WorkloadRes :=
+  { cpuRequest := newReq.cpuRequest, cpuLimit := newReq.cpuLimit, memoryRequest := newReq.memRequest,
+    memoryLimit := newReq.memLimit, cpuMap := cpuMap, numaMemory := numaMemory, numaNode := numaNode }
+
+/-- the node with the origin resource given back to the pool -/
+def giveBack (n : NodeInfo) (origin : WorkloadRes) : NodeInfo := { n with usage := n.usage.sub origin.toNodeRes }
+
+/-- CalculateRealloc: (new workload resource, delta resource = new.DeepCopy().Sub(origin)) -/
 def calculateRealloc (sched : Sched) (n : NodeInfo) (origin : WorkloadRes) (req : Req) :
     Outcome (WorkloadRes × WorkloadRes) :=
-  let bind := if req.keepCPUBind then decide (origin.cpuMap.length > 0) else req.cpuBind
-  -- put resources back into the pool
-  let n' : NodeInfo := { n with usage := n.usage.sub origin.toNodeRes }
-  let newReq : Req :=
-    { cpuBind := bind, cpuRequest := req.cpuRequest + origin.cpuRequest, cpuLimit := req.cpuLimit + origin.cpuLimit,
-      memRequest := req.memRequest + origin.memoryRequest, memLimit := req.memLimit + origin.memoryLimit }
-  match newReq.validate with
+  match (reallocReq origin req).validate with
   | .error e => .err e
   | .ok newReq =>
-    let finish (cpuMap : IMap) (numaNode : String) (numaMemory : IMap) : Outcome (WorkloadRes × WorkloadRes) :=
-      let newRes : WorkloadRes :=
-        { cpuRequest := newReq.cpuRequest, cpuLimit := newReq.cpuLimit, memoryRequest := newReq.memRequest,
-          memoryLimit := newReq.memLimit, cpuMap := cpuMap, numaMemory := numaMemory, numaNode := numaNode }
-      .ok (newRes, newRes.deepCopy.sub origin)
-    if bind then
-      match sched n' origin.cpuMap newReq with
+    if reallocBind origin req then
+      match sched (giveBack n origin) origin.cpuMap newReq with
       | [] => .err errInsufficientResource
-      | p :: _ => finish p.cpuMap p.numaNode (if p.numaNode.length > 0 then [(p.numaNode, newReq.memRequest)] else [])
+      | p :: _ =>
+        let newRes := reallocResource newReq p.cpuMap p.numaNode
+          (if p.numaNode.length > 0 then [(p.numaNode, newReq.memRequest)] else [])
+        .ok (newRes, newRes.deepCopy.sub origin)
     else
-      match allocByMemory n' 1 newReq with
+      match allocByMemory (giveBack n origin) 1 newReq with
       | .error e => .err e
-      | .ok _ => finish [] "" []
+      | .ok _ =>
+        let newRes := reallocResource newReq [] "" []
+        .ok (newRes, newRes.deepCopy.sub origin)
 
 /-- CalculateRemap: engine parameters for the workloads without CPU binding -/
 def shareCPUMap (n : NodeInfo) (shareBase : Int) : IMap :=
